@@ -421,7 +421,10 @@ func buildIntrinsics() map[string]intrinsic {
 	m["strconv.ParseFloat"] = func(e *Engine, fr *frame, a []value) value {
 		s, ok := a[0].(str).concrete()
 		if !ok {
-			e.unsupported("strconv.ParseFloat on symbolic string (floating point is outside the encoding)")
+			if e.specDepth > 0 {
+				panic(specAbort{"float"})
+			}
+			panic(pathEnd{kind: "outside", reason: "floating point on symbolic values (REST X-Server-Timeout, float parameters) is outside the encoding"})
 		}
 		f, err := strconv.ParseFloat(s, int(a[1].(*Term).Val))
 		if err != nil {
